@@ -32,7 +32,8 @@ EXPLANATION = (
     "permutes rows and values with the same sort permutation; (R14) set_entry inserts row and value at the sorted position, overwrites there if present and "
     "rebuilds the pointers with one more entry in that column, ignores only a new zero, get_entry reads at first + the binary-search index; (R15) deduplicate sums runs inside "
     "one column only (every scan bounded by the column end) and writes row and sum together at the output cursor. Every inner loop must be the entry range of the *same* column the outer "
-    "loop is at: an iterator that is not recognised as such leaves a raw term and the comparison fails closed.")
+    "loop is at: an iterator that is not recognised as such leaves a raw term and the comparison fails closed."
+    ' R7 also: every pass of is_triu scans the column unless the column was found empty.')
 ASSUMPTIONS = ['rustc MIR construction and trait resolution are correct',
                'the matrix is canonical (colptr monotone, rows in range): what check_format establishes',
                'vector primitives (scale, negate, fill, sum, fold) have their documented meaning (primitives rule family)']
@@ -627,6 +628,25 @@ def triangle(rep, F, tag, rid='C16.R7'):
                 rows.add((a[0], ret[1]))
             if ret[0] == 'c' and not a:
                 rows.add(('exit', ret[1]))
+            if ret[0] == 'cut':
+                # a pass that goes on to the next column (or entry) has either seen the test fail for what it looked at, or has run out of entries
+                # of *this* column; a pass that skips the scan on some other condition (column length, a flag) leaves entries unexamined
+                exhausted = any(nz(k).startswith('discr(next(into_iter(iter(index(self.rowval, Range::Range(index(self.colptr, ') and v == 0 for k, v in val.items())
+                other = {k[:70]: v for k, v in val.items() if not nz(k).startswith(('discr(next(', 'any(', 'lt(', 'gt('))}
+                # skipping a column found *empty* is no exemption: it has no entry to examine
+                for J in (JJ, JJn):
+                    c0, c1 = 'index(self.colptr, %s)' % J, 'index(self.colptr, add(%s, 1_usize))' % J
+                    empt_if_1 = ('eq(%s, %s)' % (c0, c1), 'eq(%s, %s)' % (c1, c0), 'le(%s, %s)' % (c1, c0), 'ge(%s, %s)' % (c0, c1), 'is_empty(index(self.rowval, Range::Range(%s, %s)))' % (c0, c1))
+                    empt_if_0 = ('ne(%s, %s)' % (c0, c1), 'ne(%s, %s)' % (c1, c0), 'lt(%s, %s)' % (c0, c1), 'gt(%s, %s)' % (c1, c0))
+                    for k, v in val.items():
+                        kk = nz(k)
+                        if kk in empt_if_1 or kk in empt_if_0:
+                            other.pop(k[:70], None)
+                            if (kk in empt_if_1 and v == 1) or (kk in empt_if_0 and v == 0):
+                                exhausted = True
+                R.check((bool(a) and a[0] == 0 and not other) or (exhausted and not other), 'is_triu|every-column-scanned' + tag,
+                        'a pass of is_triu moves on without having scanned the entries of the column (path %s): a column that is short enough, or otherwise exempted, can '
+                        'still hold an entry below the diagonal' % {k[:70]: v for k, v in val.items()}, g.loc())
         R.check(tests == {'row>col'}, 'is_triu|test' + tag,
                 'is_triu does not test `row > col` over the rows of every column (closures %s)' % [canon(c.sym_local(0)) for c in cl], g.loc())
         R.check((1, 0) in rows and ('exit', 1) in rows and (1, 1) not in rows and (0, 1) not in rows and (0, 0) not in rows, 'is_triu|table' + tag, 'is_triu returns %s' % sorted(rows, key=str), g.loc())
@@ -878,6 +898,8 @@ def drop_zeros(rep, F, tag):
                         R.check(sorted(stores) == sorted(want), 'kept-moves-both' + tag, 'a kept entry that has to move performs %s, expected value and row copied from the read position to the write cursor' % stores, f.loc())
                     else:
                         R.check(not stores or sorted(stores) == sorted(want), 'kept-in-place' + tag, 'a kept entry already in place performs %s' % stores, f.loc())
+                        if not moved and sorted(stores) == sorted(want):
+                            seen.add('move')     # unconditional move (a kept entry in place is copied onto itself)
                 else:
                     seen.add('drop')
                     R.check(not stores and not incs, 'dropped-untouched' + tag, 'a zero entry performs %s and advances the cursor by %s' % (stores, incs), f.loc())
@@ -1032,19 +1054,40 @@ def dedup(rep, F, tag):
 
     def body():
         f = F.one(name='deduplicate', adt='CscMatrix')
-        nz = lambda t: t.replace('withoverflow', '').replace(').0', ')')
+        nz0 = lambda t: t.replace('withoverflow', '').replace(').0', ')')
         J = 'next(into_iter(Range::Range(0_usize, self.n)))@Some.0'
+        # the locals are recognised by their role, not by their name: output cursor (stored into colptr[col+1]), column end (read from
+        # colptr[col+1]), scanning cursor (initialised with the column end of the previous column), running sum (stored into nzval[cursor])
+        role = {}
+        A0 = [(bi, si, st, nz0(canon(f.sym_place(st['p']))) if st['p']['p'] else None, nz0(canon(f.sym_rvalue(st['rv'])))) for bi, si, st in f.assignments()]
+        for bi, si, st, pl, rv in A0:
+            if pl == 'index_mut(self.colptr, add(%s, 1_usize))' % J and rv.startswith('var:'):
+                role[rv[4:]] = 'nnz'
+            if pl is None and rv == 'index(self.colptr, add(%s, 1_usize))' % J and f.local_name(st['p']['l']):
+                role[f.local_name(st['p']['l'])] = 'stop'
+        for bi, si, st, pl, rv in A0:
+            if pl is None and f.local_name(st['p']['l']) and rv.startswith('var:') and role.get(rv[4:]) == 'stop':
+                role[f.local_name(st['p']['l'])] = 'ptr'
+            if pl is not None and rv.startswith('var:') and pl.startswith('index_mut(self.nzval, var:') and role.get(pl[len('index_mut(self.nzval, var:'):-1]) == 'nnz':
+                role[rv[4:]] = 'accum'
+            if pl is not None and rv.startswith('var:') and pl.startswith('index_mut(self.rowval, var:') and role.get(pl[len('index_mut(self.rowval, var:'):-1]) == 'nnz':
+                role[rv[4:]] = 'thisrow'
+        if sorted(v for v in role.values() if v != 'thisrow') != ['accum', 'nnz', 'ptr', 'stop']:
+            raise AnchorError('deduplicate: output cursor / column end / scanning cursor / running sum not recognised (%s)' % role)
+        rn = re.compile(r'var:(%s)\b' % '|'.join(re.escape(k) for k in sorted(role, key=len, reverse=True)))
+        nz = lambda t: rn.sub(lambda m_: 'var:' + role[m_.group(1)], nz0(t))
+        lname = lambda l: role.get(f.local_name(l), f.local_name(l))
         bounds = [nz(canon(f.sym_operand(c.args[1]))) for c in f.calls if c.callee.name == 'lt' and len(c.args) == 2 and nz(canon(f.sym_operand(c.args[0]))) == 'var:ptr']
         if not bounds:
-            bounds = [nz(canon(f.sym_rvalue(st['rv']))) for bi, si, st in f.assignments() if st['rv'].get('k') == 'bin' and st['rv'].get('op') == 'Lt' and 'var:ptr' in nz(canon(f.sym_rvalue(st['rv'])))]
-            bounds = [re.sub(r'^lt\(var:ptr, (.*)\)$', r'\1', b) for b in bounds]
+            bounds = [nz(canon(f.sym_rvalue(st['rv']))) for bi, si, st in f.assignments() if st['rv'].get('k') == 'bin' and st['rv'].get('op') in ('Lt', 'Ne') and nz(canon(f.sym_rvalue(st['rv']))).startswith(('lt(var:ptr, ', 'ne(var:ptr, '))]
+            bounds = [re.sub(r'^(?:lt|ne)\(var:ptr, (.*)\)$', r'\1', b) for b in bounds]
         R.check(len(bounds) >= 2 and all(b == 'var:stop' for b in bounds), 'scan-bounded-by-column' + tag,
                 'the scanning cursor of deduplicate is compared with %s: every scan (outer and run-summing loop) must stop at the end of the current column, otherwise a run spills into '
                 'the next column when its first row equals this column\'s last row' % bounds, f.loc())
         asg = {}
         for bi, si, st in f.assignments():
             if not st['p']['p']:
-                nm_ = f.local_name(st['p']['l'])
+                nm_ = lname(st['p']['l'])
                 if nm_ in ('ptr', 'stop', 'accum', 'nnz', 'thisrow'):
                     asg.setdefault(nm_, set()).add(nz(canon(f.sym_rvalue(st['rv']))))
         want = {'stop': {'0_usize', 'index(self.colptr, add(%s, 1_usize))' % J}, 'ptr': {'var:stop', 'add(var:ptr, 1_usize)'},
@@ -1064,9 +1107,9 @@ def dedup(rep, F, tag):
         blk = {}
         for bi, si, st in f.assignments():
             v = nz(canon(f.sym_rvalue(st['rv'])))
-            if not st['p']['p'] and f.local_name(st['p']['l']) == 'ptr' and v == 'var:stop':
+            if not st['p']['p'] and lname(st['p']['l']) == 'ptr' and v == 'var:stop':
                 blk['ptr'] = (bi, si)
-            if not st['p']['p'] and f.local_name(st['p']['l']) == 'stop' and v.startswith('index(self.colptr'):
+            if not st['p']['p'] and lname(st['p']['l']) == 'stop' and v.startswith('index(self.colptr'):
                 blk['stop'] = (bi, si)
             if st['p']['p'] and nz(canon(f.sym_place(st['p']))).startswith('index_mut(self.colptr'):
                 blk['close'] = (bi, si)
